@@ -452,6 +452,27 @@ impl HintingInstance {
     }
 }
 
+#[cfg(googlefonts_fontations_verif)]
+impl HintingInstance {
+    /// Canonical rendering of the complete instance state, for the
+    /// out-of-tree verification harness. Adds no behaviour.
+    pub fn verif_state(&self) -> crate::alloc::string::String {
+        let kind = match &self.kind {
+            HinterKind::None => "None".into(),
+            HinterKind::Glyf(instance) => instance.verif_state(),
+            HinterKind::Cff(subfonts) => crate::alloc::format!("Cff({})", subfonts.len()),
+            HinterKind::Auto(_) => "Auto".into(),
+        };
+        crate::alloc::format!(
+            "size={:?} coords={:?} target={:?} kind={}",
+            self.size,
+            self.coords,
+            self.target,
+            kind
+        )
+    }
+}
+
 #[derive(Clone)]
 enum HinterKind {
     /// Represents a hinting instance that is associated with an empty outline
